@@ -30,6 +30,7 @@ import (
 //   create <alloc> <Mraw> <Nraw> <Craw> <L> <enabled> <startNs> <planDurNs> <liqPartRaw> <vestDurNs> <vestStartAfterNs>
 //   time <dtNs> | fund <a> <amt> | buy <a> <amt> <maxCost> | bes <a> <spend> <minTokens> | sell <a> <amt> <minIncome>
 //   enable <a> | settle <raFunded> | claim <a> | claimv <a> | xfer <a> <b> <amt>
+//   chown <a> <b>                                        (x/rollapp MsgTransferOwnership{CurrentOwner a, NewOwner b})
 //   xs <Mraw> <Nraw> <Craw> <L> <sold> <netSpend>        (stateless Newton-contract sweep op)
 // After a `|` the executor appends the curve-oracle values it read from the real code:
 // `x:I(x)` (raw 10^-18 value of integral(x) obtained as Cost(0,x) of an 18/18-decimals copy of the
@@ -238,7 +239,21 @@ func (c *c13) slotState() string {
 	for i, a := range c.actors {
 		accts = append(accts, fmt.Sprintf("%s,%s,%s", c.f.Bal(a, c.liq).Sub(c.base[i]), c.f.Bal(a, c.iroDenom), c.f.Bal(a, c.raDenom)))
 	}
-	return fmt.Sprintf("%s | %s %s %s | %s", ps, planLiq, c.f.Bal(c.modAddr(), c.iroDenom), c.f.Bal(c.modAddr(), c.raDenom), strings.Join(accts, " "))
+	return fmt.Sprintf("%s | %s %s %s o%d | %s", ps, planLiq, c.f.Bal(c.modAddr(), c.iroDenom), c.f.Bal(c.modAddr(), c.raDenom), c.ownerIdx(), strings.Join(accts, " "))
+}
+
+// ownerIdx: the actor index of the rollapp's current owner as x/rollapp has it (-1: nobody of the trace)
+func (c *c13) ownerIdx() int {
+	ra, ok := c.f.App.RollappKeeper.GetRollapp(c.f.Ctx, c.rollapp)
+	if !ok {
+		return -1
+	}
+	for i, a := range c.actors {
+		if a.String() == ra.Owner {
+			return i
+		}
+	}
+	return -1
 }
 
 // storePid: the plan id the store's by-rollapp index holds for the current rollapp
@@ -407,6 +422,10 @@ func (c *c13) exec(line string) (obs string, suffix string) {
 	ok := false
 	all := false
 	extra := ""
+	ownerBefore := c.ownerIdx()
+	if ownerBefore < 0 {
+		ownerBefore = 0
+	}
 	switch fl[0] {
 	case "newra":
 		c.save()
@@ -452,7 +471,7 @@ func (c *c13) exec(line string) (obs string, suffix string) {
 		vd, _ := strconv.ParseInt(fl[10], 10, 64)
 		vs, _ := strconv.ParseInt(fl[11], 10, 64)
 		enabled := fl[6] == "1"
-		msg := &irotypes.MsgCreatePlan{Owner: c.actors[0].String(), RollappId: c.rollapp, AllocatedAmount: c13Int(fl[1]), BondingCurve: curve,
+		msg := &irotypes.MsgCreatePlan{Owner: c.actors[ownerBefore].String(), RollappId: c.rollapp, AllocatedAmount: c13Int(fl[1]), BondingCurve: curve,
 			TradingEnabled: enabled, IroPlanDuration: time.Duration(pd), IncentivePlanParams: irotypes.DefaultIncentivePlanParams(),
 			LiquidityPart: c13Dec(fl[9]), LiquidityDenom: c.liq, VestingDuration: time.Duration(vd), VestingStartTimeAfterSettlement: time.Duration(vs)}
 		if enabled {
@@ -522,7 +541,7 @@ func (c *c13) exec(line string) (obs string, suffix string) {
 		lb := c.f.Bal(a, c.liq)
 		_, err = c.f.Deliver(&irotypes.MsgBuy{Buyer: a.String(), PlanId: c.pid(), Amount: amt, MaxCostAmount: c13Int(fl[3])})
 		cls = c.class(err)
-		post = append(post, func() { c.afterTrade(kind, ai, a, planBefore, hadPlan, err, math.Int{}, math.Int{}, lb) })
+		post = append(post, func() { c.afterTrade(kind, ai, a, planBefore, hadPlan, err, math.Int{}, math.Int{}, lb, ownerBefore) })
 	case "bes":
 		a, ai := act(1)
 		spend := c13Int(fl[2])
@@ -567,7 +586,7 @@ func (c *c13) exec(line string) (obs string, suffix string) {
 				c.r.Hit("bes/newton-panic")
 			}
 		}
-		post = append(post, func() { c.afterTrade(kind, ai, a, planBefore, hadPlan, err, spend, net, lb) })
+		post = append(post, func() { c.afterTrade(kind, ai, a, planBefore, hadPlan, err, spend, net, lb, ownerBefore) })
 	case "sell":
 		a, ai := act(1)
 		amt := c13Int(fl[2])
@@ -577,11 +596,14 @@ func (c *c13) exec(line string) (obs string, suffix string) {
 		lb := c.f.Bal(a, c.liq)
 		_, err = c.f.Deliver(&irotypes.MsgSell{Seller: a.String(), PlanId: c.pid(), Amount: amt, MinIncomeAmount: c13Int(fl[3])})
 		cls = c.class(err)
-		post = append(post, func() { c.afterTrade(kind, ai, a, planBefore, hadPlan, err, math.Int{}, math.Int{}, lb) })
+		post = append(post, func() { c.afterTrade(kind, ai, a, planBefore, hadPlan, err, math.Int{}, math.Int{}, lb, ownerBefore) })
 	case "enable":
-		a, _ := act(1)
+		a, ai := act(1)
 		_, err = c.f.Deliver(&irotypes.MsgEnableTrading{Owner: a.String(), PlanId: c.pid()})
 		cls = c.class(err)
+		if err == nil && ai != ownerBefore {
+			post = append(post, func() { c.viol("C13/owner/non-owner-enabled-trading", fmt.Sprintf("a%d enabled trading, the owner is a%d", ai, ownerBefore)) })
+		}
 	case "settle":
 		rf := c13Int(fl[1])
 		err = c.f.Try(func(ctx sdk.Context) error {
@@ -614,7 +636,27 @@ func (c *c13) exec(line string) (obs string, suffix string) {
 		liqBefore := c.f.Bal(a, c.liq)
 		_, err = c.f.Deliver(&irotypes.MsgClaimVested{Claimer: a.String(), PlanId: c.pid()})
 		cls = c.class(err)
-		post = append(post, func() { c.afterClaimVested(ai, a, planBefore, hadPlan, liqBefore, err) })
+		post = append(post, func() { c.afterClaimVested(ai, a, planBefore, hadPlan, liqBefore, err, ownerBefore) })
+	case "chown":
+		a, _ := act(1)
+		b, bi := act(2)
+		_, err = c.f.Deliver(&rollapptypes.MsgTransferOwnership{CurrentOwner: a.String(), NewOwner: b.String(), RollappId: c.rollapp})
+		switch {
+		case err == nil:
+			cls = "ok"
+			if got := c.ownerIdx(); got != bi {
+				post = append(post, func() { c.viol("C13/owner/transfer-did-not-take-effect", fmt.Sprintf("owner is a%d after a transfer to a%d", got, bi)) })
+			}
+		case IsPanic(err):
+			cls = "panic"
+		case errors.Is(err, rollapptypes.ErrUnauthorizedSigner):
+			cls = "denied"
+		case errors.Is(err, rollapptypes.ErrSameOwner):
+			cls = "rej"
+		default:
+			cls = "other"
+		}
+		c.streakActor = -1
 	case "xfer":
 		a, _ := act(1)
 		b, _ := act(2)
@@ -761,11 +803,11 @@ func (c *c13) monitorState() {
 	}
 }
 
-func (c *c13) afterTrade(kind string, ai int, a sdk.AccAddress, pb irotypes.Plan, had bool, err error, spend, net, liqBefore math.Int) {
+func (c *c13) afterTrade(kind string, ai int, a sdk.AccAddress, pb irotypes.Plan, had bool, err error, spend, net, liqBefore math.Int, ownerIdx int) {
 	if err != nil {
 		return
 	}
-	owner := ai == 0
+	owner := ai == ownerIdx
 	if had {
 		if pb.IsSettled() {
 			c.viol("C13/trade_gating/traded-after-settlement", kind+" succeeded on a settled plan")
@@ -853,12 +895,12 @@ func (c *c13) afterClaim(ai int, a sdk.AccAddress, pb irotypes.Plan, had bool, b
 	}()
 }
 
-func (c *c13) afterClaimVested(ai int, a sdk.AccAddress, pb irotypes.Plan, had bool, liqBefore math.Int, err error) {
+func (c *c13) afterClaimVested(ai int, a sdk.AccAddress, pb irotypes.Plan, had bool, liqBefore math.Int, err error, ownerIdx int) {
 	if err != nil || !had {
 		return
 	}
-	if ai != 0 {
-		c.viol("C13/vesting/non-owner-claimed", fmt.Sprintf("a%d claimed vested funds", ai))
+	if ai != ownerIdx {
+		c.viol("C13/vesting/non-owner-claimed", fmt.Sprintf("a%d claimed vested funds, the owner is a%d", ai, ownerIdx))
 	}
 	pa, _ := c.plan()
 	v := pa.VestingPlan
@@ -1015,6 +1057,47 @@ func c13Corpus(c *c13) {
 		c.r.Hit("corpus/witness-trace")
 	}
 	c13ManyPlans(c)
+	c13OwnerChange(c, "0")
+	c13OwnerChange(c, "1")
+}
+
+// c13OwnerChange: the directed ownership trace.  The rollapp is handed over (real MsgTransferOwnership)
+// before the plan's start — the former owner is gated like any trader, the new one trades — and again
+// after settlement, between two vesting claims: each time only the CURRENT owner can claim, the total
+// released to both owners stays within the vesting amount.  feeBase "1": the taker fee's beneficiary
+// (half of the fee in the base denom) follows the owner too.
+func c13OwnerChange(c *c13, feeBase string) {
+	const alloc = "1000000000000000000000"
+	c.do("reset 20000000000000000 1000000000000000000 400000000000000000 0 0 " + feeBase + " 3 " + alloc + " 18")
+	c.do("fund 0 " + alloc)
+	c.do("fund 1 " + alloc)
+	c.do("fund 2 " + alloc)
+	c.do("create " + alloc + " 0 1000000000000000000 1000000000000000000 18 1 3600000000000 3600 500000000000000000 3 0")
+	c.do("chown 1 2") // not the owner
+	c.do("chown 0 0") // to himself
+	c.do("chown 0 2")
+	c.do("buy 0 1000000000000000000 " + alloc) // former owner: not started
+	c.do("buy 2 2000000000000000000 " + alloc) // new owner: before the start
+	c.do("enable 0")
+	c.do("time 3600000000000")
+	c.do("buy 1 3000000000000000000 " + alloc) // fee beneficiary is a2
+	c.do("bes 0 1000000000000000000 1")
+	c.do("sell 1 1000000000000000000 1")
+	c.do("settle " + alloc)
+	c.do("time 1")
+	c.do("claimv 0")
+	c.do("claimv 2")
+	c.do("chown 0 1")
+	c.do("chown 2 1")
+	c.do("time 1")
+	c.do("claimv 2")
+	c.do("claimv 1")
+	c.do("time 5")
+	c.do("claimv 1")
+	c.do("claimv 1")
+	c.do("claim 1")
+	c.do("claim 2")
+	c.r.Hit("corpus/owner-change")
 }
 
 // c13ManyPlans: the directed restart trace.  Twelve rollapps with a plan each (so at least eleven plans
